@@ -229,8 +229,7 @@ class CharacterClass(MutableSet[int]):
                     if self.negative:
                         self.negative |= value()
                 else:
-                    self.positive &= value()
-                    self.negative.clear()
+                    self._discard_negative(value())
 
             elif part.startswith('\\p') or part.startswith('\\P'):
                 if self._re_unicode_ref.search(part) is None:
@@ -246,10 +245,21 @@ class CharacterClass(MutableSet[int]):
                 else:
                     if part.startswith('\\p'):
                         self.positive -= subset
+                        if self.negative:
+                            self.negative |= subset
                     else:
-                        self.negative -= subset
+                        self._discard_negative(subset)
             else:
                 self.positive.difference_update(part)
+                if self.negative:
+                    self.negative.update(part)
+
+    def _discard_negative(self, subset: UnicodeSubset) -> None:
+        """Discards the complement of a subset: (P | ~N) & S is (P & S) | (S - N)."""
+        self.positive -= self.positive - subset
+        if self.negative:
+            self.positive |= subset - self.negative
+            self.negative.clear()
 
     def clear(self) -> None:
         self.positive.clear()
